@@ -453,6 +453,13 @@ func (s *c17Scenario) body(c *mc.Ctx) {
 			}
 		}
 	}
+	// the certificate objects belong to the callers (two callers share them): a check leaves them as they were
+	for i, x := range chain {
+		if why := certificateDamage(x); why != "" {
+			c.Fail(sigBase+" the callers' certificate was modified by a check", "position %d: %s", i, why)
+			break
+		}
+	}
 	for k := 0; k < s.callers; k++ {
 		r := results[k]
 		switch {
